@@ -1,6 +1,7 @@
 package main
 
 import (
+	"encoding/json"
 	"fmt"
 	"strings"
 	"time"
@@ -153,9 +154,153 @@ func buildPost(cases []*Case, rep *Report, rerun bool) {
 		if o.GoOut != c.GoOut {
 			d := caseDisagreement(c)
 			d.Lean = fmt.Sprintf("two builds of the same project differ: %s  VS  %s", trunc(c.GoOut, 300), trunc(o.GoOut, 300))
+			if a1, a2 := getAux(c), getAux(o); a1 != nil && a2 != nil && sameButExamples(a1.Json, a2.Json) {
+				d.Lean = "two builds differ only in generated examples: " + firstExampleDiff(a1.Json, a2.Json)
+			}
 			d.Prop = "C06"
 			d.Detail = ""
 			rep.Monitor = append(rep.Monitor, d)
+		}
+	}
+}
+
+func stripExamples(x any) any {
+	switch v := x.(type) {
+	case map[string]any:
+		out := map[string]any{}
+		for k, c := range v {
+			if k == "example" {
+				continue
+			}
+			out[k] = stripExamples(c)
+		}
+		return out
+	case []any:
+		out := make([]any, len(v))
+		for i, c := range v {
+			out[i] = stripExamples(c)
+		}
+		return out
+	}
+	return x
+}
+
+func sameButExamples(j1, j2 string) bool {
+	var a, b any
+	if json.Unmarshal([]byte(j1), &a) != nil || json.Unmarshal([]byte(j2), &b) != nil {
+		return false
+	}
+	x, _ := json.Marshal(stripExamples(a))
+	y, _ := json.Marshal(stripExamples(b))
+	return string(x) == string(y) && j1 != j2
+}
+
+func firstExampleDiff(j1, j2 string) string {
+	var a, b any
+	json.Unmarshal([]byte(j1), &a)
+	json.Unmarshal([]byte(j2), &b)
+	var walk func(x, y any, path string) string
+	walk = func(x, y any, path string) string {
+		switch v := x.(type) {
+		case map[string]any:
+			w, _ := y.(map[string]any)
+			for k, c := range v {
+				if r := walk(c, w[k], path+"."+k); r != "" {
+					return r
+				}
+			}
+		case []any:
+			w, _ := y.([]any)
+			for i, c := range v {
+				if i < len(w) {
+					if r := walk(c, w[i], fmt.Sprintf("%s[%d]", path, i)); r != "" {
+						return r
+					}
+				}
+			}
+		default:
+			if fmt.Sprint(x) != fmt.Sprint(y) {
+				return fmt.Sprintf("%s: %v vs %v", path, x, y)
+			}
+		}
+		return ""
+	}
+	return trunc(walk(a, b, "$"), 200)
+}
+
+// C16: every accessor sequence up to a length over {j,i,o,p,t} on accepted documents
+func genAccessCases(p *PRNG, n int, tier string) []*Case {
+	maxLen := 4
+	if tier == "thorough" {
+		maxLen = 6
+	}
+	var seqs []string
+	var rec func(prefix string)
+	rec = func(prefix string) {
+		if prefix != "" {
+			seqs = append(seqs, prefix)
+		}
+		if len(prefix) == maxLen {
+			return
+		}
+		for _, l := range "jiopt" {
+			rec(prefix + string(l))
+		}
+	}
+	rec("")
+	docs := n/len(seqs) + 1
+	var cases []*Case
+	for d := 0; d < docs; d++ {
+		var data []byte
+		switch d % 3 {
+		case 0:
+			data = []byte(specialDocs[(d/3)%12])
+		default:
+			m := GenModel(p.Fork(), 1+p.Intn(3))
+			// make sure regex types and references to them occur: they are what makes generation stateful
+			m.Types = append(m.Types, MType{Name: "rxT", S: Schema{Notation: "regex", Body: "/[a-z]{2,4}/"}})
+			if len(m.Resources) > 0 && len(m.Resources[0].Methods) > 0 {
+				mm := &m.Resources[0].Methods[0]
+				mm.Responses = append(mm.Responses, MResponse{Code: "418", Body: Schema{Notation: "jsight", Body: "{\n  \"r\": @rxT\n}"}})
+			}
+			data = []byte(RenderModel(m, RandomLayout(p.Fork())))
+		}
+		for _, s := range seqs {
+			c := singleBuild("access", data)
+			c.Args = []string{"build", "", s}
+			c.ID = len(cases)
+			cases = append(cases, c)
+		}
+	}
+	return cases
+}
+
+func init() {
+	generators["access"] = genAccessCases
+	postChecks["access"] = func(cases []*Case, rep *Report) {
+		rep.Rule = "every sequence of ToJson, ToJsonIndent, ToOpenAPIJson, ToOpenAPIJsonIndent, Title up to length 4 (quick) / 6 (thorough) on special-notation documents and generated models with regex types; each accessor must return the same bytes at every call of a sequence and across sequences of the same document; non-trivial = distinct outputs"
+		buildPost(cases, rep, false)
+		// across sequences of one document: the first result of each accessor must be the same
+		first := map[string]map[byte]string{}
+		for _, c := range cases {
+			a := getAux(c)
+			if a == nil {
+				continue
+			}
+			key := string(c.Files["root.jst"])
+			if first[key] == nil {
+				first[key] = map[byte]string{}
+			}
+			for _, call := range a.Calls {
+				if f, ok := first[key][call[0]]; ok {
+					if f != call {
+						addMonitor(rep, c, "C16", fmt.Sprintf("accessor %c returns %s in the sequence %q, it returned %s in another sequence on the same document", call[0], call[2:], c.Args[2], f[2:]))
+						break
+					}
+				} else {
+					first[key][call[0]] = call
+				}
+			}
 		}
 	}
 }
